@@ -860,6 +860,80 @@ def run_check(tier, seed):
         run.count(('normalize-const', text), nontrivial=ok_pts > 0)
     run.cov['search_constants'] = dict(normalised=n_const, compared=n_const_cmp)
 
+    # ======== (3a') model correspondence for the reduction of constant trigonometric arguments modulo 2 pi
+    #                (TrigReduce.reduce: period, range and idempotence are proved): f(c * pi / d) for f in sin cos tan cot sec csc
+    def pi_coeff(a):
+        """a = q * pi exactly (pi is the only non-numeral); returns q as a Fraction."""
+        if a.is_const():
+            if a.val != 0:
+                raise ValueError('numeral')
+            return Fraction(0)
+        if a.is_fun() and a.func_name == 'pi':
+            return Fraction(1)
+        if a.is_op() and a.op == '-' and len(a.args) == 1:
+            return -pi_coeff(a.args[0])
+        if a.is_op() and a.op == '*':
+            l_, r_ = a.args
+            if l_.is_const():
+                return Fraction(l_.val) * pi_coeff(r_)
+            if r_.is_const():
+                return pi_coeff(l_) * Fraction(r_.val)
+        if a.is_op() and a.op == '/' and a.args[1].is_const():
+            return pi_coeff(a.args[0]) / Fraction(a.args[1].val)
+        raise ValueError('shape')
+
+    def trig_parts(nf):
+        """nf = sign * f(arg) with sign = 1 or -1: (sign, f, arg) or None."""
+        sign = 1
+        while True:
+            if nf.is_op() and nf.op == '-' and len(nf.args) == 1:
+                sign, nf = -sign, nf.args[0]
+            elif nf.is_op() and nf.op == '*' and nf.args[0].is_const() and nf.args[0].val in (1, -1):
+                sign, nf = sign * int(nf.args[0].val), nf.args[1]
+            else:
+                break
+        if nf.is_fun() and nf.func_name in ('sin', 'cos', 'tan', 'cot', 'sec', 'csc') and len(nf.args) == 1:
+            return sign, nf.func_name, nf.args[0]
+        return None
+    texprs, tmeta = [], []
+    for _ in range(80 * scale):
+        c_, d_ = r.randint(-25, 25), r.choice([1, 2, 3, 4, 5, 7, 9])
+        fr = Fraction(c_, d_)
+        c_, d_ = fr.numerator, fr.denominator
+        f_ = r.choice(['sin', 'cos', 'tan', 'cot', 'sec', 'csc'])
+        text = '%s(%d*pi/%d)' % (f_, c_, d_) if d_ != 1 else '%s(%d*pi)' % (f_, c_)
+        try:
+            nf = with_timeout(10, lambda: poly.normalize(iparser.parse_expr(text), conds))
+            parts = trig_parts(nf)
+            if parts is None or parts[1] != f_:
+                run.stat('trig_reduce:evaluated-or-other-shape')
+                continue
+            q = parts[0] * pi_coeff(parts[2]) if f_ in ('sin', 'tan', 'cot', 'csc') else abs(pi_coeff(parts[2]))
+        except Alarm:
+            run.stat('normalize_timeout')
+            continue
+        except RecursionError:
+            raise
+        except Exception as ex:
+            run.stat('trig_reduce_exc:' + type(ex).__name__)
+            continue
+        num = q * d_
+        if num.denominator != 1:
+            run.violation('correspondence', 'correspondence:C19/trig_reduce: %s is normalised to %s, whose argument is not (an integer / %d) * pi' % (text, nf, d_),
+                          dict(correspondence='C19/trig_reduce', expr=text, normal_form=str(nf)), failing_input=False)
+            continue
+        texprs.append('%s (%d)%%Z (%d)%%Z (%d)%%Z' % ('case_reduce' if f_ in ('sin', 'tan', 'cot', 'csc') else 'case_reduce_abs', c_, d_, int(num)))
+        tmeta.append((text, str(nf)))
+    tcodes = coq_eval_nats(run.wd, 'TrigReduce', texprs, tag='trig', shard=300)
+    tdis = 0
+    for (text, nfs), code in zip(tmeta, tcodes):
+        if code != 1:
+            tdis += 1
+            if tdis <= 4:
+                run.violation('correspondence', 'correspondence:C19/trig_reduce: %s is normalised to %s; the model TrigReduce.reduce gives another argument' % (text, nfs),
+                              dict(correspondence='C19/trig_reduce', expr=text, normal_form=nfs), failing_input=False)
+    run.cov['correspondence_trig_reduce'] = dict(cases=len(texprs), disagree=tdis)
+
     # ======== (3b) limits at infinity whose value depends on the side from which a sub-term approaches its limit
     run.cov['search_limits'] = limits_family(run, r, 150 * scale)
 
